@@ -24,6 +24,8 @@ enum Rhs {
     NanAt(usize),
     /// smooth problem that returns NaN from the j-th evaluation on
     NanFrom(usize),
+    /// y' = -1e-6 y : so slow that the automatic initial step wants far more than any reasonable max_step
+    Slow,
 }
 
 struct F {
@@ -56,6 +58,7 @@ impl IVP for F {
             Rhs::Stiff => d[0] = -2000.0 * (y[0] - x.cos()),
             Rhs::NanAt(j) => d[0] = if n == j { f64::NAN } else { x.cos() + 0.5 * y[0] },
             Rhs::NanFrom(j) => d[0] = if n >= j { f64::NAN } else { x.cos() + 0.5 * y[0] },
+            Rhs::Slow => d[0] = -1.0e-6 * y[0],
             Rhs::Script => {
                 // call-indexed: the value depends only on the position inside the current trial
                 if n <= self.pre { d[0] = std::env::var("SCRIPT_PRE").ok().and_then(|v| v.parse().ok()).unwrap_or(1.0); return; }
@@ -527,6 +530,25 @@ fn main() {
                 out.push(format!("\"{}\":[{}]", nm, rows.join(",")));
             }
             println!("{{{}}}", out.join(","));
+        }
+        // probe smoothrun METHOD x0 xend h0|none max_step|none rtol FLAGS : the real solver on y' = cos t + y/2 (scripted callback flags only)
+        "smoothrun" => {
+            let p = |s: &String| -> Option<f64> { if s == "none" { None } else { Some(s.parse().unwrap()) } };
+            let rtol: f64 = a[7].parse().unwrap();
+            let run = Run { method: a[2].clone(), x0: a[3].parse().unwrap(), xend: a[4].parse().unwrap(), y0: 0.5, h0: p(&a[5]), max_step: p(&a[6]), max_steps: 100000, rtol, atol: rtol * 1e-3, dense: true };
+            let f = F::new(if a.get(9).map(|s| s == "slow").unwrap_or(false) { Rhs::Slow } else { Rhs::Smooth });
+            let mut so = Rec { cbs: vec![], dense: vec![], bounds: vec![], thetas: vec![0.0, 1.0], stop_after: 0, flags: a[8].as_bytes().to_vec(), modified_to: 0.25, xout_at: 0.0, calls_at_cb: vec![], had_interp: vec![] };
+            let r = solve(&run, &f, &mut so);
+            let calls = f.calls.borrow();
+            let ts: Vec<f64> = calls.iter().map(|c| c.0).collect();
+            let ys: Vec<f64> = calls.iter().map(|c| c.1).collect();
+            let cb: Vec<String> = so.cbs.iter().map(|c| format!("[{},{},{}]", js(c.0), js(c.1), js(c.2))).collect();
+            let bd: Vec<String> = so.bounds.iter().map(|c| format!("[{},{}]", js(c.0), js(c.1))).collect();
+            match r {
+                Ok(res) => println!("{{\"ok\":true,\"status\":\"{:?}\",\"nfev\":{},\"njev\":{},\"nstep\":{},\"naccpt\":{},\"nrejct\":{},\"h\":{},\"ode_calls\":{},\"jac_calls\":{},\"t\":{},\"y\":{},\"callbacks\":[{}],\"bounds\":[{}],\"calls_at_cb\":{:?},\"had_interp\":{:?}}}",
+                    res.status, res.evals.ode, res.evals.jac, res.steps.total, res.steps.accepted, res.steps.rejected, js(res.h), calls.len(), f.jac_calls.get(), jl(&ts), jl(&ys), cb.join(","), bd.join(","), so.calls_at_cb, so.had_interp),
+                Err(e) => println!("{{\"ok\":false,\"error\":\"{:?}\"}}", e),
+            }
         }
         // probe optindep : solve_ivp (RK4, 250001 fixed steps; RK23 with a tight max_step) with and without dense_output / t_eval, default max_steps:
         //   status, number of accepted steps and final state must not depend on the output options
